@@ -213,15 +213,21 @@ func genJoinState(repo string) (string, error) {
 			if fd.Recv != nil && len(fd.Recv.List) == 1 && len(fd.Recv.List[0].Names) == 1 {
 				recv = fd.Recv.List[0].Names[0].Name
 			}
-			var lastFor token.Pos
+			var firstFor, lastFor token.Pos
 			for _, st := range fd.Body.List {
 				switch s := st.(type) {
 				case *ast.ForStmt, *ast.RangeStmt:
 					lastFor = s.End()
+					if firstFor == 0 {
+						firstFor = s.Pos()
+					}
 				case *ast.LabeledStmt:
 					switch s.Stmt.(type) {
 					case *ast.ForStmt, *ast.RangeStmt:
 						lastFor = s.End()
+						if firstFor == 0 {
+							firstFor = s.Pos()
+						}
 					}
 				}
 			}
@@ -247,6 +253,64 @@ func genJoinState(repo string) (string, error) {
 			sort.Strings(fields)
 			out += "/-- fields of the Factory assigned in UpdaterSet -/\ndef stateWrites : List Bytes := " + j_lbList(fields) + "\n"
 			out += "def stateWritesAfterWalk : Bool := " + j_leanBool(after && lastFor != 0) + "\n"
+			// every `default:` arm of a switch on res.StatusCode inside the walk's
+			// loops assigns `incomplete = true`
+			marks, arms := 0, 0
+			ast.Inspect(fd.Body, func(n ast.Node) bool {
+				sw, ok := n.(*ast.SwitchStmt)
+				if !ok || sw.Pos() > lastFor || sw.Pos() < firstFor {
+					return true
+				}
+				se, ok := sw.Tag.(*ast.SelectorExpr)
+				if !ok || se.Sel.Name != "StatusCode" {
+					return true
+				}
+				for _, c := range sw.Body.List {
+					cc := c.(*ast.CaseClause)
+					if cc.List != nil {
+						continue
+					}
+					arms++
+					for _, st := range cc.Body {
+						if as, ok := st.(*ast.AssignStmt); ok && len(as.Lhs) == 1 && len(as.Rhs) == 1 {
+							l, lok := as.Lhs[0].(*ast.Ident)
+							r, rok := as.Rhs[0].(*ast.Ident)
+							if lok && rok && l.Name == "incomplete" && r.Name == "true" {
+								marks++
+							}
+						}
+					}
+				}
+				return true
+			})
+			// `if incomplete { return … }` between the walk and the state writes
+			guard := false
+			var firstWrite token.Pos
+			ast.Inspect(fd.Body, func(n ast.Node) bool {
+				if as, ok := n.(*ast.AssignStmt); ok {
+					for _, l := range as.Lhs {
+						if se, ok := l.(*ast.SelectorExpr); ok {
+							if id, ok := se.X.(*ast.Ident); ok && id.Name == recv && (firstWrite == 0 || as.Pos() < firstWrite) {
+								firstWrite = as.Pos()
+							}
+						}
+					}
+				}
+				return true
+			})
+			for _, st := range fd.Body.List {
+				is, ok := st.(*ast.IfStmt)
+				if !ok || is.Pos() < lastFor || is.Pos() > firstWrite {
+					continue
+				}
+				if id, ok := is.Cond.(*ast.Ident); ok && id.Name == "incomplete" && len(is.Body.List) == 1 {
+					if _, ok := is.Body.List[0].(*ast.ReturnStmt); ok {
+						guard = true
+					}
+				}
+			}
+			out += "/-- the walk has status switches with a default arm, and each of them sets `incomplete` -/\ndef unexpectedStatusMarksIncomplete : Bool := " + j_leanBool(arms >= 2 && marks == arms) + "\n"
+			out += "def incompleteReturnsBeforeStateWrites : Bool := " + j_leanBool(guard) + "\n"
 		}
 		out += "end " + pkg + "\n\n"
 	}
